@@ -101,6 +101,7 @@ pub fn draw_history(t: &mut Tape, n: usize, cuts: &[usize], with_noise: bool) ->
                 1 => ops.extend_from_slice(&[OP_FLUSH, 0]),
                 2 => ops.extend_from_slice(&[OP_PEEK, 0]),
                 3 => ops.extend_from_slice(&[OP_PEEK_MUT, 0]),
+                4 => ops.extend_from_slice(&[OP_DEBUG, 0]),
                 _ => {}
             }
         }
@@ -246,6 +247,7 @@ fn gen(t: &mut Tape, tier: Tier) -> Scenario {
     if t.below(6) == 0 {
         opts.memlimit = Some(t.range(0, 5000) as usize);
     }
+    opts.wrapper = t.below(2) == 1;
     opts.store(&mut sc);
     let cuts: Vec<usize> = cuts.into_iter().filter(|c| *c < input.len()).collect();
     let ops = draw_history(t, input.len(), &cuts, true);
@@ -347,7 +349,7 @@ fn exec(sc: &Scenario, ctx: &mut Ctx) -> Vec<Violation> {
     }
     let ops = sc.l("ops");
     let (v, o, _) = one_history(sc, ops, &oneshot);
-    let writes = o.events.iter().filter(|e| e.op != OP_FLUSH && e.op != OP_PEEK && e.op != OP_PEEK_MUT && e.op != OP_FINISH).count();
+    let writes = o.events.iter().filter(|e| e.op != OP_FLUSH && e.op != OP_PEEK && e.op != OP_PEEK_MUT && e.op != OP_DEBUG && e.op != OP_FINISH).count();
     if o.events.iter().any(|e| e.op == OP_WRITE && e.offered == 0) {
         ctx.stats.hit("probe.empty_write_in_history");
     }
